@@ -15,6 +15,9 @@ pub struct Feasible {
 	/// some hop's htlc_minimum exceeds the requested amount and is only met thanks to the fees of
 	/// the hops after it
 	pub min_lifted_by_fees: bool,
+	/// some hop is filled to within 2 msat of its limit while a later hop charges a proportional
+	/// fee (the router's max-contribution estimate is documented to be imprecise by rounding)
+	pub exact_fit: bool,
 }
 
 /// Router restrictions that are mirrored here because they are legitimate, documented behaviour and
@@ -77,6 +80,27 @@ pub fn path_carries(edges: &[Edge], path: &[usize], amount: u64, sat_pow: u8, u6
 	Some(fee_total)
 }
 
+fn exact_fit(edges: &[Edge], path: &[usize], amount: u64, sat_pow: u8) -> bool {
+	let mut amt = amount as u128;
+	let mut prop_after = false;
+	for (k, ei) in path.iter().enumerate().rev() {
+		let e = &edges[*ei];
+		if prop_after && (e.saturation_limited_max(sat_pow).max(e.max) as u128).saturating_sub(amt) <= 2 {
+			return true;
+		}
+		if prop_after && (e.saturation_limited_max(sat_pow) as u128).saturating_sub(amt) <= 2 {
+			return true;
+		}
+		if k > 0 {
+			if e.ppm > 0 {
+				prop_after = true;
+			}
+			amt += e.fee_for(amt);
+		}
+	}
+	false
+}
+
 pub fn feasible_single_path(g: &Graph, q: &Query, edges: &[Edge]) -> Option<Feasible> {
 	if q.amount == 0 || q.amount > MAX_VALUE_MSAT {
 		return None;
@@ -110,14 +134,23 @@ fn dfs(
 				let cltv: u32 = stack.iter().map(|i| edges[*i].cltv).sum();
 				let strict = path_carries(edges, stack, q.amount, q.sat_pow, true).is_some();
 				let lifted = stack.iter().any(|i| edges[*i].min > q.amount);
+				let tight = exact_fit(edges, stack, q.amount, q.sat_pow);
 				let better = match best {
 					None => true,
 					Some(b) => {
-						(!strict, lifted, stack.len(), fee) < (!b.strict, b.min_lifted_by_fees, b.edges.len(), b.total_fee)
+						(!strict, lifted, tight, stack.len(), fee)
+							< (!b.strict, b.min_lifted_by_fees, b.exact_fit, b.edges.len(), b.total_fee)
 					},
 				};
 				if better {
-					*best = Some(Feasible { edges: stack.clone(), total_fee: fee, cltv, strict, min_lifted_by_fees: lifted });
+					*best = Some(Feasible {
+						edges: stack.clone(),
+						total_fee: fee,
+						cltv,
+						strict,
+						min_lifted_by_fees: lifted,
+						exact_fit: tight,
+					});
 				}
 			}
 		} else {
